@@ -13,10 +13,14 @@ HARNESSES = [
                 ("internal/pppoe/zz_verif_c12_test.go", _F + "c12_pppoe_test.go")]),
     dict(name="ow", pkg="./pkg/opdb/", test="TestVerifC12OW", timeout=600,
          files=[("pkg/opdb/zz_verif_c12_ow_test.go", _F + "c12_ow_test.go")]),
+    dict(name="race", pkg="./internal/ipoe/", test="TestVerifC12Race", timeout=900,
+         files=[("internal/ipoe/zz_verif_c12_race_test.go", _F + "c12_race_test.go")]),
     dict(name="sq", pkg="./pkg/opdb/sqlite/", test="TestVerifC12SQ", timeout=600,
          files=[("pkg/opdb/sqlite/zz_verif_c12_sq_test.go", _F + "c12_sqlite_test.go")]),
 ]
-VARIANTS = ["repaired"]      # = /repo HEAD; every C12 finding is fixed, a regression to an old defect is a VIOLATION
+# repaired = /repo HEAD for every fixed finding (a regression to an old defect is a VIOLATION); d_ckrace = the one
+# open finding (concurrent IPoE checkpoints of one session issued out of marshalling order), only for `race` cases
+VARIANTS = ["repaired", "d_ckrace"]
 MODEL_NEEDS_IMPL = True
 RULE = ("one case = one whole history over <=6 sessions on a fresh component with a scheduler-controlled opdb fake: "
         "new (bring-up with allocator answers; pool/static/no address per family, bound/released-v4/approved/created flags "
@@ -276,11 +280,12 @@ def _sq_cases(rng, n):
 
 def gen_cases(rng, tier, budget):
     cases = _ow_cases(rng, 150 if tier == "quick" else 1500) + _sq_cases(rng, 12 if tier == "quick" else 150)
+    cases.append("race %d" % (50000 if tier == "quick" else 400000))
     for proto in ("ipoe", "pppoe"):
         for h in _structured(proto):
             for cfg in ("4 4 1", "2 2 1"):
                 cases.append("%s %s %s" % (proto, cfg, " ".join(h)))
-    n = budget or (1500 if tier == "quick" else 12000)
+    n = budget or (1400 if tier == "quick" else 12000)
     for k in range(n):
         proto = "ipoe" if k % 2 == 0 else "pppoe"
         n4, n6, kpd = rng.choice([2, 3, 4, 6]), rng.choice([2, 3, 4]), rng.choice([1, 2])
@@ -359,6 +364,9 @@ def _monitor(case, impl):
 
 
 def classify(case, impl, model):
+    if case.startswith("race "):
+        return "P", ("two concurrent checkpoints of one session: the image marshalled first was written last (stale image "
+                     "in the store): impl=%r model=%r" % (impl, model))
     if case.startswith("sq "):
         return "P", ("sqlite Store contract broken (nil returned without effect, or effect / error mismatch): impl=%r model=%r"
                      % (impl[:200], model[:200]))
@@ -394,10 +402,14 @@ def classify(case, impl, model):
 
 
 def signature(case, impl, models):
-    return None          # no open finding
+    if case.startswith("race ") and impl == models.get("d_ckrace") == "stale=yes":
+        return "concurrent-checkpoint-reorder/ipoe"
+    return None
 
 
 def nontrivial(case, impl):
+    if case.startswith("race "):
+        return True
     if case.startswith("sq "):
         return "err" in impl
     if case.startswith("ow "):
@@ -407,6 +419,8 @@ def nontrivial(case, impl):
 
 def shrink(case):
     t = case.split()
+    if t[0] == "race":
+        return
     if t[0] in ("ow", "sq"):
         for i in range(1, len(t)):
             yield " ".join(t[:i] + t[i + 1:])
@@ -435,10 +449,11 @@ def distribution(cases, impl):
     tot = 0
     d["ow"] = 0
     d["sq"] = 0
+    d["race"] = 0
     for c, o in zip(cases, impl):
         t = c.split()
         d[t[0]] += 1
-        if t[0] in ("ow", "sq"):
+        if t[0] in ("ow", "sq", "race"):
             continue
         tot += len(t) - 4
         nc = 0
